@@ -1,6 +1,7 @@
 package http_api
 
 import (
+	"bytes"
 	"context"
 	"encoding/base64"
 	"encoding/json"
@@ -798,6 +799,12 @@ type tokenizationHTTPRequest struct {
 	Type pseudonymizationCommon.TokenType `json:"type" example:"1"`
 }
 
+// isMissingData tells whether the request carries no data: the member is absent or null (a null would
+// otherwise be decoded as the zero value of the token type - 0, the empty string - and tokenized as such)
+func isMissingData(data json.RawMessage) bool {
+	return data == nil || bytes.Equal(bytes.TrimSpace(data), []byte("null"))
+}
+
 type tokenizationHTTPResponse struct {
 	Data interface{} `json:"data" swaggertype:"string,integer"`
 }
@@ -878,7 +885,7 @@ func (service *HTTPService) _tokenize(ctx *gin.Context, data []byte) (response t
 		httpErr = NewHTTPError(http.StatusBadRequest, "Invalid request data")
 		return
 	}
-	if request.Data == nil {
+	if isMissingData(request.Data) {
 		logger.WithField("content_type", ctx.ContentType()).Errorln("Can't bind data")
 		httpErr = NewHTTPError(http.StatusBadRequest, "Invalid request data, empty data")
 		return
@@ -938,7 +945,7 @@ func (service *HTTPService) _detokenize(ctx *gin.Context, data []byte) (response
 		httpErr = NewHTTPError(http.StatusBadRequest, "Invalid request data")
 		return
 	}
-	if request.Data == nil {
+	if isMissingData(request.Data) {
 		logger.WithField("content_type", ctx.ContentType()).Errorln("Can't bind data")
 		httpErr = NewHTTPError(http.StatusBadRequest, "Invalid request data, empty data")
 		return
